@@ -31,7 +31,7 @@ def run(c):
     else:
         trace = c.scratch + "/addrtext.ndjson"
         c.run_driver(drv, ["-out", trace] + (["-scale", 5, "-mutevery", 6] if c.thorough else ["-scale", 1, "-mutevery", 30]))
-    r = c.validate("AddrTextTrace", "AddrTextTrace.cfg", trace, timeout=3000)
+    r = _wire.validate_table(c, "AddrTextTrace", "AddrTextTrace.cfg", trace)
     _wire.judge_table(c, r, trace)
     n = 0
     shapes = set()
